@@ -2,7 +2,7 @@
 
 stdin : {"cases": [case, ...]}
         case = {"shape": str, "x": bool, "entry": "parse_args|parse_object|parse_string|parse_env|parse_path",
-                "input": ..., "files": {relative name: text}, "dcf": text or null, "stdin": "none" or absent,
+                "input": ..., "files": {relative name: text}, "dcf": text or null, "stdin": "none" or absent, "nested_x": "same|default|opposite" or absent,
                 "history": [{"entry": ..., "input": ...}, ...] calls made before on the same parser object (outcomes swallowed)}
 stdout: last line {"obs": [...]}; one observation per case:
         {"k": "ret"} | {"k": "exit", "code": c, "usage": bool, "frames": [...]} |
@@ -14,6 +14,11 @@ and the case's own files; a SIGALRM limit per call turns non-termination into "h
 """
 import argparse
 import calendar
+import datetime
+import decimal
+import pathlib
+import re
+import uuid
 import contextlib
 import dataclasses
 import enum
@@ -68,7 +73,10 @@ def type_int_like(v):
     return int(v)
 
 
-def build(shape, x, dcf_path):
+def build(shape, x, dcf_path, nested_x="same"):
+    """nested_x: how parsers nested below the root (sub-command parsers, the ActionParser parser) are constructed —
+    "same": with the root's exit_on_error, "default": without the keyword (what jsonargparse.CLI does), "opposite": with the other value"""
+    nkw = {} if nested_x == "default" else {"exit_on_error": (not x) if nested_x == "opposite" else x}
     kw = dict(exit_on_error=x, env_prefix="APP", default_env=False)
     if dcf_path is not None:
         kw["default_config_files"] = [dcf_path]
@@ -108,11 +116,11 @@ def build(shape, x, dcf_path):
     elif shape == "subcommands":
         p.add_argument("--a", type=int, default=1)
         sc = p.add_subcommands(required=True)
-        fit = ArgumentParser(exit_on_error=x)
+        fit = ArgumentParser(**nkw)
         fit.add_argument("--cfg", action=ActionConfigFile)
         fit.add_argument("--p", type=int, default=0)
         fit.add_argument("--cal", type=calendar.Calendar)
-        test = ArgumentParser(exit_on_error=x)
+        test = ArgumentParser(**nkw)
         test.add_argument("--q", type=List[str])
         test.add_argument("name", type=str, nargs="?")
         sc.add_subcommand("fit", fit)
@@ -128,11 +136,25 @@ def build(shape, x, dcf_path):
         p.add_argument("--flag", action="store_true")
         p.add_argument("--cnt", action="count")
         p.add_argument("--a", type=int, default=1)
+    elif shape == "registered":
+        p.add_argument("--dec", type=decimal.Decimal)
+        p.add_argument("--td", type=datetime.timedelta)
+        p.add_argument("--dt", type=datetime.datetime)
+        p.add_argument("--cx", type=complex)
+        p.add_argument("--uu", type=uuid.UUID)
+        p.add_argument("--pp", type=pathlib.Path)
+        p.add_argument("--rx", type=re.Pattern)
+        p.add_argument("--by", type=bytes)
+        p.add_argument("--rg", type=range)
+        p.add_argument("--od", type=Optional[decimal.Decimal])
+        p.add_argument("--ltd", type=List[datetime.timedelta])
+        p.add_argument("--ddec", type=Dict[str, decimal.Decimal])
+        p.add_argument("--a", type=int, default=1)
     elif shape == "paths":
         p.add_argument("--p", type=Path_fr)
         p.add_argument("--lp", type=List[Path_fr])
         p.add_argument("--op", type=Optional[Path_fr])
-        inner = ArgumentParser(exit_on_error=x)
+        inner = ArgumentParser(**nkw)
         inner.add_argument("--v", type=int, default=0)
         inner.add_argument("--w.k", type=List[int])
         p.add_argument("--inner", action=ActionParser(parser=inner))
@@ -272,15 +294,15 @@ def run_case(case, base):
     try:
         try:
             with contextlib.redirect_stdout(out), contextlib.redirect_stderr(err):
-                parser = build(case["shape"], case["x"], dcf_path)
+                parser = build(case["shape"], case["x"], dcf_path, case.get("nested_x", "same"))
                 # calls made earlier on the SAME parser object: whatever they do is swallowed, only the last call is observed
                 for h in case.get("history") or []:
+                    signal.alarm(LIMIT)  # every call has its own time budget; an earlier call that exceeds it is abandoned
                     try:
                         call(parser, h["entry"], decode(h["input"]) if h["entry"] == "parse_object" else h["input"])
-                    except Hung:
-                        raise
                     except BaseException:  # noqa: B036
                         pass
+                signal.alarm(LIMIT)
                 out.seek(0), out.truncate(), err.seek(0), err.truncate()
                 call(parser, case["entry"], inp)
             obs = {"k": "ret"}
